@@ -11,6 +11,7 @@ from collections import Counter
 import common
 import omen_gen
 import omen_history
+import unicode_pool
 
 ID = "C10"
 TRUSTED = ["directories with a history: harness/omen_history.py (second / third model written INTO a directory the real loader "
@@ -288,7 +289,22 @@ def run(ctx):
             # all-10 tables are a corner, not the bulk
             force = {"ip_mode": ctx.rng.choice(["low", "low", "mid", "wide", "wide", "hi", "zero", "two"]),
                      "ln_mode": ctx.rng.choice(["low", "low", "mid", "wide", "zero", "two", "hi"])}
+        encoding = "utf-8"
+        if i >= len(forced) and i % 4 == 3:
+            # n-grams that are NOT in Unicode normal form C (harness/unicode_pool.py: base letter + combining mark, two marks in
+            # non-canonical order, singletons U+212B / U+2126 / U+212A / U+037E, Hangul conjoining jamo, CJK compatibility
+            # ideographs, mostly with the composed twin in the same alphabet; every 5th of them a control that NFC leaves
+            # alone), in utf-8 and utf-16: an n-gram is `ngram` CODE POINTS of the file, whatever they would compose to
+            control = (i // 4) % 5 == 4
+            force = dict(force or {}, alphabet=unicode_pool.omen_alphabet(ctx.rng, control=control),
+                         ngram=ctx.rng.choice([2, 2, 3, 3, 4]), density=ctx.rng.choice([1.0, 1.0, 0.8, 0.6]))
+            encoding = ["utf-8", "utf-16", "utf-8", "utf-16-le"][(i // 4) % 4]
+            dist["non_nfc_alphabets"] += not control
+            dist["non_nfc_alphabets_" + encoding] += not control
         om = omen_gen.gen_model(ctx.rng, force, max_strings=ctx.scale(6000, 8000))
+        if encoding != "utf-8":
+            om["encoding"] = encoding
+        dist["models_with_a_non_nfc_ngram"] += any(not unicode_pool.nfc_stable(s) for _, s in om["ip"] + om["cp"])
         key = omen_gen.model_key(om)
         case, v, info = explore_model(ctx, om, sc, C, py_cap, dist)
         vio += v
@@ -352,7 +368,9 @@ def run(ctx):
                          % ([members[k][j] for j in idx], json.dumps({q: c["om"][q] for q in ("ngram", "ip", "cp", "ln")})[:700])))
         else:
             corr.append(("omen-run:" + name, True, ""))
-    rule = ("random OMEN directories (ngram 2-5, 2-6 symbols incl. non-ASCII, dense/sparse, dead-end prefixes, level modes "
+    rule = ("random OMEN directories (ngram 2-5, 2-6 symbols incl. non-ASCII - every 4th over an alphabet whose n-grams are not in "
+            "Unicode normal form C: combining marks after their base letter, singletons, Hangul jamo, CJK compatibility ideographs, "
+            "with the composed twins, utf-8 / utf-16 / utf-16-le -, dense/sparse, dead-end prefixes, level modes "
             "zero/low/mid/wide/hi/all-10 for IP, CP and LN independently), read by the real loader; every level 0..min(max,12), "
             "up to 3 higher non-empty ones and an empty one: MarkovCracker.next_guess() until None with a new Optimizer, then "
             "all levels again in random order (one twice, two partial runs first) on ONE Optimizer; oracle: multiset equality with "
